@@ -549,3 +549,70 @@ func paramFor(g *ssa.Function, c callSite, v ssa.Value) *ssa.Parameter {
 	}
 	return nil
 }
+
+// flowsUnchanged: v is src itself, possibly handed on through local variables (also captured
+// ones), phis or the parameter of a transparent helper — never transformed.
+func flowsUnchanged(v, src ssa.Value) bool {
+	seen := map[ssa.Value]bool{}
+	var rec func(v ssa.Value, depth int) bool
+	rec = func(v ssa.Value, depth int) bool {
+		v = stripValue(v)
+		if v == src {
+			return true
+		}
+		if v == nil || seen[v] || depth > 4 {
+			return seen[v] // a cycle through a phi adds nothing new
+		}
+		seen[v] = true
+		switch x := v.(type) {
+		case *ssa.Phi:
+			for _, e := range x.Edges {
+				if !rec(e, depth) {
+					return false
+				}
+			}
+			return len(x.Edges) > 0
+		case *ssa.UnOp:
+			if x.Op != token.MUL {
+				return false
+			}
+			var cell *ssa.Alloc
+			if a, ok := x.X.(*ssa.Alloc); ok {
+				cell = a
+			} else if fv, ok := x.X.(*ssa.FreeVar); ok {
+				if b, ok := bindingOf(fv).(*ssa.Alloc); ok {
+					cell = b
+				}
+			}
+			if cell == nil {
+				return false
+			}
+			sts := storesInto(cell)
+			for _, st := range sts {
+				if !rec(st.Val, depth) {
+					return false
+				}
+			}
+			return len(sts) > 0
+		case *ssa.Parameter:
+			g := x.Parent()
+			if g == nil || !isTransparent(g, pkgOfFn(g)) {
+				return false
+			}
+			callers := staticCallersOf(g)
+			for i, gp := range g.Params {
+				if gp != x {
+					continue
+				}
+				for _, c := range callers {
+					if i >= len(c.Call.Args) || !rec(c.Call.Args[i], depth+1) {
+						return false
+					}
+				}
+			}
+			return len(callers) > 0
+		}
+		return false
+	}
+	return rec(v, 0)
+}
